@@ -8,6 +8,9 @@ package main
 import (
 	"encoding/json"
 	"fmt"
+	"github.com/storacha/go-ucanto/core/invocation"
+	"github.com/storacha/go-ucanto/core/message"
+	"github.com/storacha/go-ucanto/server"
 	"math/rand"
 	"runtime"
 	"strings"
@@ -30,6 +33,7 @@ func genC09(cfg Config, emit Emit) error {
 	o := genOpts{maxDepth: 3, sessions: true, sessionPct: 20, caveats: true, caveatPct: 20,
 		kinds: []string{"none", "none", "wrongkey", "expired", "resource", "revoke", "decoys", "missing"}}
 	i := 0
+	o.rsaServicePct = 30
 	genWorlds(cfg, n, o, func(w *AWorld, class string) {
 		r := cfg.Rng
 		size := sizes[i%len(sizes)]
@@ -182,6 +186,26 @@ func execBatch(a []string) (res Result) {
 	for id, n := range per {
 		if n > conc*occ[id] {
 			oracle = fmt.Sprintf("fail:handler ran %d times for invocation %d sent %d times", n, id, conc*occ[id])
+		}
+	}
+	// the message server.Execute returns, looked at directly (not through the transport codec): every
+	// invocation of the batch finds its receipt
+	if len(w.Invs) > 0 {
+		var invs []invocation.Invocation
+		for _, id := range w.Invs {
+			invs = append(invs, cw.D[id])
+		}
+		if msg, err := message.Build(invs, nil); err == nil {
+			if out, err := server.Execute(srv, msg); err == nil {
+				for _, id := range w.Invs {
+					if _, ok := out.Get(cw.D[id].Link()); !ok && oracle == "ok" {
+						oracle = fmt.Sprintf("fail:the message returned by server.Execute has no receipt for invocation %d of the batch", id)
+					}
+				}
+				if len(out.Receipts()) < len(per) && oracle == "ok" {
+					oracle = "fail:the message returned by server.Execute lists fewer receipts than invocations ran"
+				}
+			}
 		}
 	}
 	return Result{Args: []string{a[0], mustJSON(&w), a[2], a[3], a[4]}, Impl: impl, Oracle: oracle}
